@@ -41,6 +41,23 @@ GENPFX = "generated_submodel_list_hack_"
 BAD = ["", "x" * 129, "a\x01b", "1a", "a-b", "a\tb"]
 
 
+class Idx:
+    """an index object as numpy & co hand them out: __index__, but not an int"""
+
+    def __init__(self, i):
+        self.i = i
+
+    def __index__(self):
+        return self.i
+
+
+import sys as _sys
+# indices for insert() that are not plain small ints: wrong types and the exact Py_ssize_t boundaries
+XIDX = {"str": "0", "none": None, "float": 1.5, "huge": 2 ** 70, "neghuge": -2 ** 70,
+        "max": _sys.maxsize, "max+1": _sys.maxsize + 1, "min": -_sys.maxsize - 1, "min-1": -_sys.maxsize - 2,
+        "2^63": 2 ** 63, "2^64": 2 ** 64, "idx0": Idx(0), "idx-1": Idx(-1)}
+
+
 class FailingIterable(Exception):
     pass
 
@@ -230,7 +247,7 @@ def exc_code(e):
 
 
 ORDERED_ONLY = {"popat", "insert", "setitem", "setslice", "delitem", "delslice", "setvalue",
-                "xsetslice", "xdelslice", "xinsert", "append", "extend", "reverse", "iadd"}
+                "xsetslice", "xdelslice", "xinsert", "xdelitem", "xsetitem", "append", "extend", "reverse", "iadd"}
 
 
 def apply_op(ctx, op):
@@ -303,7 +320,11 @@ def apply_op(ctx, op):
         elif name == "delslice":
             del S[op[3]:op[4]]
         elif name == "xinsert":        # oracle-only stream: an index that is not an int
-            S.insert({"str": "0", "none": None, "float": 1.5, "huge": 2 ** 70, "neghuge": -2 ** 70}[op[3]], ctx.pool[op[4]])
+            S.insert(XIDX[op[3]], ctx.pool[op[4]])
+        elif name == "xdelitem":       # an index object (__index__) that is not an int
+            del S[Idx(op[3])]
+        elif name == "xsetitem":
+            S[Idx(op[3])] = ctx.pool[op[4]]
         elif name == "xsetslice":      # oracle-only stream: extended slices and mixin methods
             S[op[3]:op[4]:op[5]] = [ctx.pool[e] for e in op[6]]
         elif name == "xdelslice":
@@ -497,7 +518,7 @@ def snapshot(ctx):
 
 
 SINGLE = {"add", "remove", "discard", "pop", "popat", "insert", "setitem", "delitem", "rename",
-          "owneradd", "ownerremove", "append", "xinsert"}
+          "owneradd", "ownerremove", "append", "xinsert", "xdelitem", "xsetitem"}
 
 
 def canon_snapshot(ctx):
@@ -604,6 +625,12 @@ def ctor_probe():
     return out
 
 
+def ordered_orders(ctx):
+    model = _sdk()
+    return [(o, tuple(id(x) for x in S)) for o in ctx.live for S in all_sets(ctx.owners[o])
+            if isinstance(S, model.OrderedNamespaceSet)]
+
+
 def run_sdk(case, with_trace=True):
     """case = {kind, pool, ops}.  Returns (trace, failures) with failures = [(step, class, message)]."""
     ctx = Ctx(case["kind"], [tuple(p) for p in case["pool"]])
@@ -612,6 +639,7 @@ def run_sdk(case, with_trace=True):
         op = tuple(op)
         before = snapshot(ctx)
         cbefore = canon_snapshot(ctx)
+        obefore = ordered_orders(ctx)
         nsets_before = len(ctx.sets_of(op[1])) if op[0] == "construct" and op[1] in ctx.owners else 0
         out = apply_op(ctx, op)
         if op[0] == "construct" and out[0] != 0:
@@ -624,6 +652,14 @@ def run_sdk(case, with_trace=True):
         if out[0] not in (0, 9) and op[0] == "setvalue" and canon_snapshot(ctx) != cbefore:
             fails.append((k, "setvalue:not-restored", f"rejected value setter (code {out[0]}) did not restore the "
                                                       "previous content (same elements, order, parent)"))
+        if op[0] == "setsem":
+            # changing a non-identifying attribute of a contained element must not move it; refused -> as before
+            if ordered_orders(ctx) != obefore:
+                fails.append((k, "setsem:reordered", "setting semantic_id of a contained element changed the positional "
+                                                     "order / membership of an ordered collection"))
+            if out[0] != 0 and canon_snapshot(ctx) != cbefore:
+                fails.append((k, "setsem:not-restored", f"refused semantic_id (code {out[0]}) left the element or its "
+                                                        "namespace changed"))
         if out[0] == 98:
             fails.append((k, f"{op[0]}:exception-class", f"{op[0]} raised an undocumented exception class"))
         try:
@@ -749,7 +785,7 @@ def gen_case(rng, kind, maxlen, extra=False):
             y = rng.random()
             if not isord:
                 op = ("ior", o, j, some(rng.choice([1, 2, 3]))) if y < 0.5 else ("isub", o, j, some(rng.choice([1, 2, 3])))
-            elif y < 0.3:
+            elif y < 0.25:
                 if rng.random() < 0.6:
                     a, b = None, None
                 dl = len(S[a:b:st])
@@ -757,11 +793,17 @@ def gen_case(rng, kind, maxlen, extra=False):
                 k = max(0, rng.choice([dl - 1, dl - 1, dl, dl + 1]))
                 op = ("xsetslice", o, j, a, b, st, [rng.choice(free) if rng.random() < 0.8 else rng.randrange(n)
                                                     for _ in range(k)])
-            elif y < 0.4:
+            elif y < 0.32:
                 op = ("xdelslice", o, j, a, b, st)
-            elif y < 0.45:
+            elif y < 0.52:
                 free = [i for i, y_ in enumerate(ctx.pool) if y_.parent is None] or list(range(n))
-                op = ("xinsert", o, j, rng.choice(["str", "none", "float", "huge", "huge", "neghuge"]), rng.choice(free))
+                y2 = rng.random()
+                if y2 < 0.75:
+                    op = ("xinsert", o, j, rng.choice(sorted(XIDX)), rng.choice(free))
+                elif y2 < 0.8:
+                    op = ("xdelitem", o, j, z)
+                else:
+                    op = ("xsetitem", o, j, z, rng.choice(free))
             elif y < 0.6:
                 op = ("append", o, j, e)
             elif y < 0.7:
@@ -1042,7 +1084,7 @@ def run(chk):
             reported.add(sig)
             chk.fail(sig, msg, dict(rp, how="tools/c01.py ctor_probe()"))
     # oracle-only stream: calls outside the model (extended slices, mixin methods)
-    nx = 600 if chk.tier == "quick" else 6000
+    nx = 1500 if chk.tier == "quick" else 8000
     for i in range(nx):
         case = gen_case(rng, kinds[i % len(kinds)], maxlen, extra=True)
         _, fails = run_sdk(case, with_trace=False)
